@@ -12,6 +12,20 @@ Definition fmt_of_suffix (s : Z) : res fmt :=
   if s =? 0 then Ok FBin else if s =? 1 then Ok FTxt else if s =? 2 then Ok FTex else if s =? 3 then Ok FMat
   else if s =? 4 then Err ESuffix else Err ENoSuffix.
 
+(* the suffix of a file NAME: what follows the last '.' of the whole path (name.find_last_of(".")) *)
+Fixpoint after_last_dot (p : list Z) : option (list Z) :=
+  match p with
+  | [] => None
+  | c :: t => match after_last_dot t with Some s => Some s | None => if c =? 46 then Some t else None end
+  end.
+Fixpoint bytes_eqb (a b : list Z) : bool :=
+  match a, b with [], [] => true | x :: a', y :: b' => (x =? y) && bytes_eqb a' b' | _, _ => false end.
+Definition suffix_class (ext : list Z) : Z :=
+  if bytes_eqb ext [98; 105; 110] then 0 else if bytes_eqb ext [116; 120; 116] then 1
+  else if bytes_eqb ext [116; 101; 120] then 2 else if bytes_eqb ext [109; 97; 116] then 3 else 4.
+Definition suffix_of_path (p : list Z) : Z := match after_last_dot p with Some ext => suffix_class ext | None => 5 end.
+Definition fmt_of_path (p : list Z) : res fmt := fmt_of_suffix (suffix_of_path p).
+
 (* a file: its bytes, and the token view of the same bytes (lexing assumed, see AsciiCodec.v);
    f_ascii: "the tag starts with a proper float value" (AsciiIO::identify, lexing again) *)
 Record file := { f_bytes : list Z; f_lines : list line; f_ascii : bool }.
